@@ -28,6 +28,7 @@ type Env struct {
 
 	builders map[*ssa.Function]*ir.Builder
 	callers  map[*ssa.Function]*callerInfo
+	apiReach map[*ssa.Function]bool
 }
 
 // callerInfo: who calls a function statically, and whether the function is
@@ -372,4 +373,71 @@ func (e *Env) buildCoverage() {
 			c.Ok("build-coverage", rel, "", fmt.Sprintf("all %d non-test Go files of the package are part of the configuration analysed; no cgo, assembly, unsafe, reflect or go:linkname", len(pk.GoFiles)))
 		}
 	}
+}
+
+// propertyAPI: the operations the properties speak about (by name, per the specification of the library's
+// behaviour - not a snapshot of today's method sets). Code that is not reachable from any of them - a new
+// convenience method such as Clone or Equal - cannot change what they return by merely READING state.
+var propertyAPI = map[string]bool{
+	"Decode": true, "Encode": true, "String": true, "Score": true, "Severity": true, "GetError": true,
+	"IsEmpty": true, "BaseMetrics": true, "TemporalMetrics": true, "Value": true,
+	"NewBase": true, "NewTemporal": true, "NewEnvironmental": true, "ExportWith": true, "ExportWithString": true,
+	"GetVersion": true,
+}
+
+// reachableFromAPI: every module function reachable (static calls, resolved dynamic calls, closures) from an
+// exported function or method named in propertyAPI, from any exported function of the report and names
+// packages, or from a package initialiser.
+func (e *Env) reachableFromAPI() map[*ssa.Function]bool {
+	if e.apiReach != nil {
+		return e.apiReach
+	}
+	ef := e.F.Effects()
+	reach := map[*ssa.Function]bool{}
+	var visit func(fn *ssa.Function)
+	visit = func(fn *ssa.Function) {
+		if fn == nil || reach[fn] {
+			return
+		}
+		reach[fn] = true
+		for _, af := range fn.AnonFuncs {
+			visit(af)
+		}
+		fe := ef.Funcs[fn]
+		if fe == nil {
+			return
+		}
+		for _, cs := range fe.Calls {
+			visit(cs.Callee)
+			for _, t := range cs.Targets {
+				visit(t)
+			}
+		}
+	}
+	for _, fn := range ef.All {
+		if fn.Pkg == nil || fn.Parent() != nil {
+			continue
+		}
+		if fn.Synthetic != "" {
+			if fn.Name() == "init" {
+				visit(fn)
+			}
+			continue
+		}
+		obj, _ := fn.Object().(*types.Func)
+		if obj == nil {
+			continue
+		}
+		path := fn.Pkg.Pkg.Path()
+		switch {
+		case strings.HasPrefix(obj.Name(), "init"):
+			visit(fn)
+		case obj.Exported() && (propertyAPI[obj.Name()] || strings.HasPrefix(obj.Name(), "Get")):
+			visit(fn)
+		case obj.Exported() && (path == load.ModPath+"/v3/report/names"):
+			visit(fn)
+		}
+	}
+	e.apiReach = reach
+	return reach
 }
